@@ -21,7 +21,7 @@ import (
 // tuples; after every round the changelog entries the round appended and the hot keys present are
 // read back and TLC searches for a serial order of the successful requests that explains both.
 
-var concHot = []Tuple{tp("doc:1", "viewer", "user:a"), tp("doc:1", "viewer", "user:b"), tp("doc:2", "viewer", "user:a"), tp("folder:1", "viewer", "user:a"), tp("group:1", "member", "user:a")}
+var concHot = []Tuple{tp("doc:1", "viewer", "group:1#member"), tp("doc:1", "viewer", "group:1#admin"), tp("doc:1", "viewer", "user:a"), tp("doc:1", "viewer", "user:b"), tp("doc:2", "viewer", "user:a"), tp("folder:1", "viewer", "user:a"), tp("group:1", "member", "user:a")}
 
 func concWritesProbe(run *Run) {
 	ctx := context.Background()
